@@ -108,12 +108,12 @@ const SCENARIOS: &[(&str, &[Act])] = &[
     ("three_way_drops", &[Act::DropOnly, Act::CloneCloneDropDrop, Act::DropOnly]),
 ];
 
-fn run_scenario(idx: usize, bound: usize) -> u64 {
+fn run_scenario(idx: usize, bound: Option<usize>) -> u64 {
     let (_name, acts) = SCENARIOS[idx];
     let iters = std::sync::Arc::new(std::sync::atomic::AtomicU64::new(0));
     let it2 = iters.clone();
     let mut b = loom::model::Builder::new();
-    b.preemption_bound = Some(bound);
+    b.preemption_bound = bound;
     b.check(move || {
         it2.fetch_add(1, std::sync::atomic::Ordering::Relaxed);
         let drops = Arc::new(AtomicUsize::new(0));
@@ -140,9 +140,9 @@ fn run_scenario(idx: usize, bound: usize) -> u64 {
     iters.load(std::sync::atomic::Ordering::Relaxed)
 }
 
-fn child_run(idx: usize, bound: usize) -> (bool, u64, String) {
+fn child_run(idx: usize, bound: Option<usize>) -> (bool, u64, String) {
     let exe = std::env::current_exe().unwrap();
-    let out = std::process::Command::new(exe).arg("--scenario").arg(idx.to_string()).arg("--bound").arg(bound.to_string()).output().expect("spawn");
+    let out = std::process::Command::new(exe).arg("--scenario").arg(idx.to_string()).arg("--bound").arg(bound.map(|b| b.to_string()).unwrap_or("none".into())).output().expect("spawn");
     let so = String::from_utf8_lossy(&out.stdout).to_string();
     let se = String::from_utf8_lossy(&out.stderr).to_string();
     let iters = so.lines().find_map(|l| l.strip_prefix("iterations=")).and_then(|v| v.parse().ok()).unwrap_or(0);
@@ -154,7 +154,7 @@ fn main() {
     let args: Vec<String> = std::env::args().collect();
     if let Some(p) = args.iter().position(|a| a == "--scenario") {
         let idx: usize = args[p + 1].parse().unwrap();
-        let bound: usize = args.iter().position(|a| a == "--bound").map(|p| args[p + 1].parse().unwrap()).unwrap_or(2);
+        let bound: Option<usize> = args.iter().position(|a| a == "--bound").and_then(|p| args[p + 1].parse().ok());
         let n = run_scenario(idx, bound);
         println!("iterations={}", n);
         return;
@@ -163,10 +163,10 @@ fn main() {
         name: "loom",
         explore: Box::new(|cx: &Cx| {
             let bound = match cx.tier {
-                Tier::Quick => 2,
-                Tier::Thorough => 3,
+                Tier::Quick => Some(3),
+                Tier::Thorough => None,
             };
-            cx.rule("loom", &format!("every interleaving (loom DPOR, preemption bound {}) of 2-3 worker threads plus the main thread, each running a fixed operation list (clone, drop, take, transpose both ways, into_opaque) on its own handle to one shared allocation, over the real arc.rs compiled against loom::sync::Arc; oracle: payload never dropped while a handle is alive, every handle reads the value, final strong count 1, payload dropped exactly once; evaluations = schedules executed", bound));
+            cx.rule("loom", &format!("every interleaving (loom DPOR, preemption bound {:?}; None = unbounded) of 2-3 worker threads plus the main thread, each running a fixed operation list (clone, drop, take, transpose both ways, into_opaque) on its own handle to one shared allocation, over the real arc.rs compiled against loom::sync::Arc; oracle: payload never dropped while a handle is alive, every handle reads the value, final strong count 1, payload dropped exactly once; evaluations = schedules executed", bound));
             let mut total = 0u64;
             for (i, (name, acts)) in SCENARIOS.iter().enumerate() {
                 let case = json!({"scenario": name, "index": i, "threads": format!("{:?}", acts), "preemption_bound": bound});
@@ -185,7 +185,7 @@ fn main() {
         }),
         replay: Box::new(|case: &Value| {
             let i = case["index"].as_u64().unwrap_or(0) as usize;
-            let b = case["preemption_bound"].as_u64().unwrap_or(2) as usize;
+            let b = case["preemption_bound"].as_u64().map(|b| b as usize);
             let (ok, iters, msg) = child_run(i, b);
             if ok {
                 CaseOut::ok(iters)
